@@ -10,6 +10,9 @@ open Lean
 namespace CnvVerif.Drv
 open CnvVerif.Fmt
 
+/- helpers live in their own namespace: several drivers share `CnvVerif.Drv` -/
+namespace FormatsDrv
+
 def getCell (j : Json) : R Cell :=
   match j with
   | .null => pure .na
@@ -150,6 +153,9 @@ def roundtripClauses (wfmt : String) (t0 t1 : FTab) : List String :=
   sortClauses t1.rows
 
 def clausesJ (l : List String) : Json := arrJ (l.eraseDups.map strJ)
+
+end FormatsDrv
+open FormatsDrv
 
 def handleFormats (op : String) (inp : Json) (impl : Option Json) : R (Option Json) := do
   match op with
